@@ -32,6 +32,14 @@ CAL = "black_it.calibrator:Calibrator"
 
 
 def run(ctx: Context) -> None:
+    from ..calib import CalibrateView
+    from . import c05, c10, c14
+    v = CalibrateView(ctx.prog)
+    # across checkpoint restores: the pickled scheduler must have digested the batch before the checkpoint is written
+    ctx.rule(c14.r4_checkpoint_on_every_exit, v, "R4")
+    # across repeated calibrate() calls: session start/end must not reset calibration-wide scheduler state
+    ctx.rule(c05.r2d_session_scope)
+    ctx.rule(c10.run_product, ("C09",), False, c10.plans(2, 2), "bootstrap-once")
     ctx.rule(r1_round_robin)
     ctx.rule(r1_calibrate_pairing)
     ctx.rule(r2_rl_bootstrap)
